@@ -100,7 +100,9 @@ func damage(path, kind string, data []byte) error {
 	switch kind {
 	case "flip":
 		d := append([]byte{}, data...)
-		d[len(d)/2] ^= 0x01
+		// bit 7: a marker byte 0xF1.. never becomes 0xF0 (pdrv.DecodeContent loops forever on a
+		// leading 0xF0, the marker of the empty blob)
+		d[len(d)/2] ^= 0x80
 		return os.WriteFile(path, d, 0o600)
 	case "truncate":
 		return os.WriteFile(path, data[:len(data)-1], 0o600)
